@@ -32,6 +32,8 @@ func init() {
 			{ID: "R03h", Floor: 1, Doc: "records loaded into the index once, after the scan", Run: ruleR03h},
 			{ID: "R03d", Floor: 2, Doc: "discardingReadSeekerPlusByte: every byte source (ReadByte, Seek's discard) reads through the counting Read, which adds exactly the returned count", Run: ruleR03d},
 			{ID: "R03k", Floor: 1, Doc: "the CARv2 header the offsets are re-based by is parsed exactly (full read, range checks before use) (= R09e)", Run: ruleR09e},
+			{ID: "R03l", Floor: 2 + 3, Doc: "index generation is run with the options the caller gave (forwarded to every option-taking callee) (= R07c)", Run: ruleR07c},
+			{ID: "R03m", Floor: 5, Doc: "the CLI's own section walk (`car index`) records the offset of every section it copies (= R19d)", Run: ruleR19d},
 		},
 	})
 }
@@ -929,7 +931,8 @@ func ruleR03i(c *Ctx, r *Report) {
 			cc, _ := callOf(b.X)
 			k, isK := constInt(b.Y)
 			if cc == nil || !funcIs(calleeFunc(cc.Common()), "bytes", "", "Compare") || !isK || k != 0 {
-				continue
+				bad = fmt.Sprintf("the search predicate returns at %s something other than bytes.Compare(key, record digest) <= 0: a comparison of a prefix, or of anything but the whole digest, lands the bisection on the wrong record for keys that share that prefix", c.Pos(ret.Pos()))
+				break
 			}
 			keyFirst := false
 			if sl, isSl := cc.Call.Args[0].(*ssa.Slice); isSl && canon(sl.X) == ssa.Value(fn.Params[2]) {
